@@ -188,4 +188,82 @@ example :
     simp only [List.mem_cons, List.not_mem_nil, or_false] at hop
     rcases hop with rfl | rfl <;> rfl
 
+/-! ### the src rewriter -/
+
+/-- what C03 says of a src attribute when a rewriter `f` is installed: at a checked src position its value is
+    the printed form of `f` applied to the URL the check accepted, for one of the src values the tag had -/
+def SrcRewritten (p : Policy) (f : UrlRewriter) (el : Bytes) (attrs : List Attr) (b : Attr) : Prop :=
+  b.key = b!"src" → Spec.isUrlPosition el b!"src" = true →
+    ∃ a ∈ attrs, a.key = b!"src" ∧ ∃ u parsed, p.validURL a.val = some u ∧ Url.parse u = some parsed ∧
+      b.val = Url.print (f parsed)
+
+theorem srcRewritten_passInv (p : Policy) (f : UrlRewriter) (el : Bytes) (attrs : List Attr) :
+    PassInv (SrcRewritten p f el attrs) where
+  added := by
+    intro x hx hk
+    rcases hx with h | h | h | h <;> rw [h] at hk <;> exact absurd hk (by decide)
+  stable := by
+    intro a b hk hv ha hkb hpos
+    rw [hk] at hkb
+    obtain ⟨a0, h0, h1, u, parsed, h2, h3, h4⟩ := ha hkb hpos
+    exact ⟨a0, h0, h1, u, parsed, h2, h3, by rw [hv]; exact h4⟩
+
+/-- **C03, the rewriter clause, for the whole of `sanitizeAttrs`**: with URL checking on and a src rewriter
+    installed, every src returned at one of the nine src positions is the rewriter's result — printed — on the
+    URL the check accepted and net/url parsed again, for a src value of the input tag; a src whose URL is refused,
+    or does not parse again, is dropped -/
+theorem C03_sanitizeAttrs_rewriter (p : Policy) (hreq : p.requireParseableURLs = true) (f : UrlRewriter)
+    (hf : p.srcRewriter = some f) (el : Bytes) (attrs : List Attr) (aps : AttrRules) (out : List Attr)
+    (h : p.sanitizeAttrs el attrs aps = some out) : ∀ b ∈ out, SrcRewritten p f el attrs b := by
+  refine sanitizeAttrs_after_urlPass (srcRewritten_passInv p f el attrs) p el attrs aps out h ?_
+  intro mid hmid
+  constructor
+  · intro hnot b _ _ hpos
+    exfalso
+    exact hnot ⟨(urlPosition_cases el b!"src" hpos).1, hreq⟩
+  · intro _ _ m2 hm2 b hb hkb hpos
+    obtain ⟨a, ha, hab⟩ := mapMOpt_mem _ mid m2 hm2 b hb
+    have hk := urlPassAttr_key p el a b hab
+    -- `a` survived the first pass: it is an attribute of the tag with the same key (and, not being a style
+    -- attribute, the same value)
+    have hka : a.key = b!"src" := by rw [← hk]; exact hkb
+    obtain ⟨a0, ha0, hfa⟩ : ∃ a0 ∈ attrs, p.filterAttr el aps (p.hasStylePolicies el) a0 = some a := by
+      rw [hmid] at ha
+      obtain ⟨a0, h0, h1⟩ := List.mem_filterMap.mp ha
+      exact ⟨a0, h0, h1⟩
+    have ha0eq : a0 = a := by
+      have hkey := filterAttr_key p el aps _ a0 a hfa
+      unfold Policy.filterAttr at hfa
+      have hns : (a0.key == b!"style") = false := by rw [← hkey, hka]; decide
+      simp only [hns, Bool.false_and, Bool.false_eq_true, ↓reduceIte] at hfa
+      repeat' split at hfa
+      all_goals first | (simp only [Option.some.injEq] at hfa; exact hfa) | cases hfa
+    subst ha0eq
+    obtain ⟨_, hc⟩ := urlPosition_cases el b!"src" hpos
+    rcases hc with ⟨hkey, _⟩ | ⟨hkey, _⟩ | ⟨_, hel, hnh, hnc⟩
+    · exact absurd hkey (by decide)
+    · exact absurd hkey (by decide)
+    · unfold Policy.urlPassAttr at hab
+      simp only [hnh, hnc, hel, hka, beq_self_eq_true, Bool.false_eq_true, ↓reduceIte, hf] at hab
+      split at hab
+      · simp at hab
+      · rename_i u hu
+        split at hab
+        · simp at hab
+        · rename_i parsed hparsed
+          simp only [Option.some.injEq] at hab
+          subst hab
+          exact ⟨a0, ha0, hka, u, parsed, hu, hparsed, rfl⟩
+
+/-- (per-input form)  **the rewriter clause at byte level**: on every tag re-read from the returned bytes, a src
+    at a checked position is the rewriter's result for a src value of an input tag of that name -/
+theorem C03_bytes_rewriter_on (p : Policy) (hreq : p.ensureInit.requireParseableURLs = true) (f : UrlRewriter)
+    (hf : p.ensureInit.srcRewriter = some f) (input : Bytes) (hp : PlainOn p.ensureInit (tokenize input)) :
+    ∀ k ∈ tokenize (p.sanitizeCore input), (k.tt = .start ∨ k.tt = .selfClosing) → ∀ b ∈ k.attrs,
+      ∃ t ∈ tokenize input, t.data = k.data ∧ SrcRewritten p.ensureInit f k.data t.attrs b := by
+  intro k hk htt b hb
+  have hne : k.attrs ≠ [] := by intro h; rw [h] at hb; simp at hb
+  obtain ⟨t, ht, aps, hd, _, hs⟩ := reread_open_tagOn p input hp k hk htt hne
+  exact ⟨t, ht, hd, C03_sanitizeAttrs_rewriter p.ensureInit hreq f hf k.data t.attrs aps k.attrs hs b hb⟩
+
 end BM.Props
